@@ -426,7 +426,7 @@ Proof.
     split; [reflexivity|]. split; [intros _; split; [reflexivity | intros; reflexivity]|].
     split; [discriminate|]. split; [apply Hw; [apply incl_refl | reflexivity | assumption]|].
     split; [reflexivity | right; reflexivity]. }
-  destruct (existsb (fun c => n_gone (s_nodes s c)) cands).
+  destruct (existsb (fun c => n_gone (s_nodes s c) || obj_gone (s_nodes s c)) cands).
   { inversion H; subst; clear H. simpl.
     split; [reflexivity|]. split; [intros _; split; [reflexivity | intros; reflexivity]|].
     split; [discriminate|]. split; [apply Hw; [apply incl_refl | reflexivity | assumption]|].
@@ -540,10 +540,17 @@ Lemma recon_facts : forall s n fget fdel fut fcl c s' r e,
   ((forall m, call_result true (lookup fdel m) <> Failed) ->
      (r = RFailed -> deletes e = []) /\ (clean (s_q s) -> clean (s_q s'))) /\
   (r = RFailed -> s_q s' = remove_cmd (s_q s) n /\ forall m, In m (c_cands c) -> n_mark (s_nodes s' m) = false) /\
-  inv s' /\ s_n s' = s_n s.
+  inv s' /\ s_n s' = s_n s /\
+  (r = RDropped <-> n_gone (s_nodes s (hd 0 (c_cands c))) = true).
 Proof.
   intros s n fget fdel fut fcl c s' r e Hinv Hf H. unfold recon in H. rewrite Hf in H.
   destruct (find_holds _ _ _ Hf) as [Hin Hn].
+  destruct (n_gone (s_nodes s (hd 0 (c_cands c)))) eqn:Ehd.
+  { inversion H; subst; clear H.
+    split; [intros m a t []|]. split; [intros _; split; [discriminate | auto]|].
+    split; [discriminate|]. split; [assumption|]. split; [reflexivity|]. split; auto. }
+  assert (Hnd : forall r0 : ret, r0 <> RDropped -> (r0 = RDropped <-> false = true)).
+  { intros r0 Hr0. split; [intros; contradiction | discriminate]. }
   destruct (wait_loop (s_repl s (c_id c)) fget 0 (c_latched c)) as [[l' w] v] eqn:Ew.
   pose proof (wait_loop_general _ _ _ _ _ _ _ Ew) as [Hlen [Hlat Hnow]].
   assert (Hfail : forall nodes e0,
@@ -570,7 +577,7 @@ Proof.
     split; [intros m a t Hm; simpl in Hm; rewrite Hfail in Hm; contradiction|].
     split; [intros _; split; [intros _; exact Hfail | exact Hclean_rm]|].
     split; [intros _; split; [reflexivity | intros m Hm; apply mark_set_false; assumption]|].
-    split; [apply inv_remove; assumption | reflexivity]. }
+    split; [apply inv_remove; assumption|]. split; [reflexivity | apply Hnd; discriminate]. }
   destruct w.
   { destruct (retry_ms (s_q s) <? s_now s - c_created c)%Z eqn:Et.
     - specialize (Hfail (s_nodes s) []).
@@ -580,12 +587,12 @@ Proof.
       split; [intros m a t Hm; simpl in Hm; rewrite Hfail in Hm; contradiction|].
       split; [intros _; split; [intros _; exact Hfail | exact Hclean_rm]|].
       split; [intros _; split; [reflexivity | intros m Hm; apply mark_set_false; assumption]|].
-      split; [apply inv_remove; assumption | reflexivity].
+      split; [apply inv_remove; assumption|]. split; [reflexivity | apply Hnd; discriminate].
     - inversion H; subst; clear H.
       split; [intros m a t []|].
       split; [intros _; split; [discriminate | apply Hclean_rp; reflexivity]|].
       split; [discriminate|].
-      split; [|reflexivity].
+      split; [|split; [reflexivity | apply Hnd; discriminate]].
       apply (inv_replace s n (s_nodes s) c); simpl; auto.
       intros Hd. pose proof (inv_del s Hinv c Hin Hd) as Hall.
       destruct (wait_loop_alltrue _ (s_repl s (c_id c)) fget 0 Hall) as [v' Hv']. rewrite Hv' in Ew. discriminate. }
@@ -616,17 +623,17 @@ Proof.
       split; [intros m a t Hm; rewrite Hfail in Hm; auto|].
       split; [intros Hno; specialize (Hd3 Hno); discriminate|].
       split; [intros _; split; [reflexivity | intros m Hm; apply mark_set_false; assumption]|].
-      split; [apply inv_remove; assumption | reflexivity].
+      split; [apply inv_remove; assumption|]. split; [reflexivity | apply Hnd; discriminate].
     + inversion H; subst; clear H.
       split; [assumption|].
       split; [intros Hno; specialize (Hd3 Hno); discriminate|].
-      split; [discriminate|]. split; [|reflexivity].
+      split; [discriminate|]. split; [|split; [reflexivity | apply Hnd; discriminate]].
       apply (inv_replace s n nodes1 c); simpl; auto.
   - inversion H; subst; clear H.
     split; [assumption|].
     split; [intros _; split; [discriminate | exact Hclean_rm]|].
     split; [discriminate|].
-    split; [apply inv_remove; assumption | reflexivity].
+    split; [apply inv_remove; assumption|]. split; [reflexivity | apply Hnd; discriminate].
 Qed.
 
 Lemma recon_nocmd : forall s n fget fdel fut fcl,
@@ -639,7 +646,7 @@ Lemma cleanup_facts : forall s fut fcl s' r e,
   inv s -> cleanup s fut fcl = (s', (r, e)) ->
   deletes e = [] /\ s_q s' = s_q s /\ s_n s' = s_n s /\ inv s' /\
   (forall x, n_mark (s_nodes s' x) = n_mark (s_nodes s x)) /\
-  (r = COk -> fut = [] -> fcl = [] -> forall n, In n (outdated s) ->
+  (r = COk -> fut = [] -> fcl = [] -> forall n, In n (outdated s) -> obj_present (s_nodes s n) = true ->
      n_taint (s_nodes s' n) = false /\ n_cond (s_nodes s' n) = false).
 Proof.
   intros s fut fcl s' r e Hinv H. unfold cleanup in H.
@@ -661,7 +668,7 @@ Proof.
   split; [reflexivity|]. split; [reflexivity|]. split; [reflexivity|]. split; [apply Hw|].
   split.
   - intros x. destruct (F2 x) as [_ [_ [-> _]]]. apply F1.
-  - intros _ Hfu Hfc n Hn. split.
+  - intros _ Hfu Hfc n Hn Hp. split.
     + destruct (F2 n) as [-> _]. apply A1; assumption.
     + apply A2; assumption.
 Qed.
@@ -691,6 +698,8 @@ Proof.
   - apply (inv_weaken s); simpl; auto using incl_refl.
   - apply (inv_weaken s); simpl; auto using incl_refl.
   - constructor; simpl; try (intros; contradiction); auto. constructor.
+  - apply (inv_weaken s); simpl; auto using incl_refl.
+  - apply (inv_weaken s); simpl; auto using incl_refl.
   - apply (inv_weaken s); simpl; auto using incl_refl.
 Qed.
 
@@ -910,6 +919,10 @@ Proof.
     simpl in E. inversion E; subst. split; [intros c [] | discriminate].
   - pose proof (env_facts _ _ _ _ _ Hinv E) as Hf; simpl in Hf. destruct Hf as [-> [-> _]].
     simpl in E. inversion E; subst. split; [assumption | discriminate].
+  - pose proof (env_facts _ _ _ _ _ Hinv E) as Hf; simpl in Hf. destruct Hf as [-> [-> _]].
+    simpl in E. inversion E; subst. split; [assumption | discriminate].
+  - pose proof (env_facts _ _ _ _ _ Hinv E) as Hf; simpl in Hf. destruct Hf as [-> [-> _]].
+    simpl in E. inversion E; subst. split; [assumption | discriminate].
 Qed.
 
 (* as long as no Delete call fails on all its attempts, a command that is given up - replacement gone
@@ -1017,16 +1030,17 @@ Proof. intros n ops. apply trace_forall; [exact start_failure_inert_step | apply
 
 Lemma cleanup_restores_step : forall s o, inv s -> cleanup_restores (ostep_of s o).
 Proof.
-  intros s o Hinv. unfold ostep_of, cleanup_restores. simpl o_ret. simpl o_snap. intros Hc n Hlt Ho Hm Hg.
+  intros s o Hinv. unfold ostep_of, cleanup_restores. simpl o_ret. simpl o_snap. intros Hc n Hlt Ho Hm Hg Hp.
   destruct o; simpl in Hc; try discriminate.
   destruct fut; [|discriminate]. destruct fcl; [|discriminate].
   simpl in Hc |- *. destruct (cleanup s [] []) as [s' [r e]] eqn:E. simpl in Hc |- *.
   destruct r; try discriminate.
   pose proof (cleanup_facts _ _ _ _ _ _ Hinv E) as [_ [_ [Hn [_ [_ Hclean]]]]].
-  rewrite sn_len in Hlt. unfold sn_owner, sn_mview, sn_fact in Ho, Hm, Hg. rewrite sn_node_in in Ho, Hm, Hg by assumption.
-  simpl in Ho, Hm, Hg. unfold sn_fact. rewrite sn_node_in by lia. simpl.
+  rewrite sn_len in Hlt. unfold sn_owner, sn_mview, sn_fact in Ho, Hm, Hg, Hp. rewrite sn_node_in in Ho, Hm, Hg, Hp by assumption.
+  simpl in Ho, Hm, Hg, Hp. unfold sn_fact. rewrite sn_node_in by lia. simpl.
   apply Hclean; auto. unfold outdated. apply filter_In. split; [apply in_seq; lia|].
-  apply owner_none in Ho. rewrite Ho, Hm, Hg. reflexivity.
+  apply owner_none in Ho. rewrite Ho, Hm, Hg. unfold obj_gone. unfold obj_present in Hp.
+  destruct (n_obj (s_nodes s n)); try discriminate. reflexivity.
 Qed.
 
 Lemma cleanup_restores_service_l : forall n ops, Forall cleanup_restores (trace (init n) ops).
@@ -1068,3 +1082,33 @@ Lemma restart_forgets_l : forall n ops,
   let s' := fst (step (run (init n) ops) Restart) in
   s_q s' = [] /\ forall x, n_mark (s_nodes s' x) = false.
 Proof. intros n ops. simpl. split; [reflexivity | intros x; reflexivity]. Qed.
+
+(* ------------------------------------------------------------------ (5) every command stays reachable *)
+
+(* a reconcile request for a command is dropped exactly when the NodeClaim the queue enqueued - that of the
+   command's first candidate - is gone *)
+Lemma reconcile_reaches_command_l : forall n ops m fget fdel fut fcl c,
+  let s := run (init n) ops in
+  find (holds_node m) (s_q s) = Some c ->
+  (fst (snd (step s (Recon m fget fdel fut fcl))) = RDropped <-> n_gone (s_nodes s (hd 0 (c_cands c))) = true).
+Proof.
+  intros n ops m fget fdel fut fcl c s Hf. simpl.
+  destruct (recon s m fget fdel fut fcl) as [s' [r e]] eqn:E. simpl.
+  assert (Hinv : inv s) by (apply run_inv, inv_init).
+  pose proof (recon_facts _ _ _ _ _ _ _ _ _ _ Hinv Hf E) as [_ [_ [_ [_ [_ H]]]]]. exact H.
+Qed.
+
+(* three candidates, the first vanishes completely while the command waits: every later request is dropped,
+   the command is never reconciled again - no timeout, no rollback - and candidates 1 and 2 stay tainted, marked
+   and queued *)
+Definition orphan_witness : list op :=
+  [Start [0; 1; 2] 1 [] [] []; ReplLaunch 0 0; CandGone 0; Advance 3600001; Recon 1 [] [] [] []; Cleanup [] []].
+
+Lemma command_reachable_refuted_l : exists n ops, ~ Forall cmd_reachable (trace (init n) ops).
+Proof.
+  exists 3, orphan_witness. intros H.
+  assert (E : forallb cmd_reachable_b (trace (init 3) orphan_witness) = false) by (vm_compute; reflexivity).
+  assert (E' : forallb cmd_reachable_b (trace (init 3) orphan_witness) = true).
+  { apply forallb_forall. intros x Hx. apply cmd_reachable_reflect. rewrite Forall_forall in H. auto. }
+  congruence.
+Qed.
